@@ -43,11 +43,11 @@ def bounds(tier):
 def step(state, ev, cases):
     """Reference model. state = (seen tuple, last, lastdef). Returns (new_state, rendered_event, expectation) or None
     when the event is not allowed here (reference before its full citation)."""
-    seen, last, lastdef = state
+    seen, last, lastdef, stale = state
     k = ev[0]
     if k == "full":
         ns = seen if ev[1] in seen else seen + (ev[1],)
-        return (ns, ev[1], True), ev, ("full", ev[1])
+        return (ns, ev[1], True, ev[1]), ev, ("full", ev[1])
     if k == "short":
         i = ev[1]
         if i not in seen:
@@ -55,23 +55,28 @@ def step(state, ev, cases):
         same = [j for j in seen if cases[j][2:4] == cases[i][2:4]]
         unamb = len(same) == 1 or ev[2]
         if unamb:
-            return (seen, i, True), ev, ("ref", i)
-        return (seen, None, False), ev, ("ambiguous", None)
+            return (seen, i, True, i), ev, ("ref", i)
+        return (seen, None, False, stale), ev, ("ambiguous", None)
     if k == "supra":
         i = ev[1]
         if i not in seen:
             return None
-        return (seen, i, True), ev, ("ref", i)
+        return (seen, i, True, i), ev, ("ref", i)
     if k == "idrel":
+        # the pin cite is plausible for the most recently resolved case, so that the ONLY reason to leave
+        # this id. out is the unresolved citation right before it
+        plausible = int(cases[stale][4]) + 2 if stale is not None else 5
         if not lastdef:  # follows an ambiguous reference: the model does not say what happens
-            return (seen, None, False), ("id", 5), ("unspecified", None)
+            return (seen, None, False, stale), ("id", plausible), ("unspecified", None)
         if last is None:  # follows an unresolved citation (or nothing): must be left out
-            return (seen, None, True), ("id", 5), ("ref", None)
+            if ev[1] != 2:
+                return None  # one rendering is enough here
+            return (seen, None, True, stale), ("id", plausible), ("ref", None)
         pg = int(cases[last][4]) + ev[1]
         if pg <= 0:
             return None
         valid = 0 <= ev[1] <= 150
-        return (seen, last if valid else None, True), ("id", pg), ("ref", last if valid else None)
+        return (seen, last if valid else None, True, stale), ("id", pg), ("ref", last if valid else None)
     return state, ev, None
 
 
@@ -194,7 +199,7 @@ def run_shard(sh):
             ns, rev, ex = r
             visit(ns, events + [rev], expect + [ex], depth + 1)
 
-    init = ((), None, True)
+    init = ((), None, True, None)
     if sh["first"] is None:
         # scenarios of length <= 1 only (longer ones are in the prefix shards)
         for ev in ALPHA:
